@@ -114,6 +114,27 @@ def env_eq(e1, e2):
     return set(e1) == set(e2) and all(deep(e1[k]) == deep(e2[k]) for k in e1)
 
 
+def inplace_noise_passes(fn_node):
+    """{container name: line} for loops `for <targets> in X / X[..]:` whose body adds a noise draw IN PLACE (`t += <noise>`) to one of the loop's
+    own targets"""
+    out = {}
+    for lp in ast.walk(fn_node):
+        if not isinstance(lp, ast.For):
+            continue
+        it = lp.iter
+        if isinstance(it, ast.Subscript):
+            it = it.value
+        if not isinstance(it, ast.Name):
+            continue
+        tnames = {n.id for n in ast.walk(lp.target) if isinstance(n, ast.Name)}
+        for st in lp.body:
+            if isinstance(st, ast.AugAssign) and isinstance(st.op, ast.Add) and isinstance(st.target, ast.Name) and st.target.id in tnames \
+                    and any(isinstance(c, ast.Call) and U(c.func).split('.')[-1] in ('normal', 'laplace', 'gaussian_noise', 'laplace_noise')
+                            for c in ast.walk(st.value)):
+                out[it.id] = st.lineno
+    return out
+
+
 class Release:
     def __init__(self, kind, mod, func, node, data_expr, params):
         self.kind, self.mod, self.func, self.node, self.data_expr, self.params = kind, mod, func, node, data_expr, params
@@ -475,6 +496,16 @@ class Taint:
             return CLEAN()
         # ---- post-processing sinks --------------------------------------------------------------------------------
         if fname in POSTPROC_CTORS or (isinstance(f, ast.Attribute) and f.attr in ('estimate', 'infer')):
+            # a container whose elements are perturbed IN PLACE by a separate pass (`for .., y, .. in X[k:]: y += noise`) holds the noisy arrays
+            # afterwards - for the elements the pass covers.  Which elements those are is not decided here: no verdict either way.
+            fn_ = mod.funcs.get(self.cur()) if hasattr(mod, 'funcs') else None
+            if fn_ is not None:
+                passes = inplace_noise_passes(fn_.node)
+                for a_ in e.args:
+                    if isinstance(a_, ast.Name) and a_.id in passes and any(v_ is not None and v_.anyt() for v_ in allv):
+                        raise AnalysisError('%s:%d: `%s` receives exact answers that a later pass perturbs in place (line %d): whether that pass covers '
+                                            'every exact answer in the container is not decided'
+                                            % (mod.rel, getattr(e, 'lineno', 0), a_.id, passes[a_.id]))
             for a in allv:
                 self.sink(a, e, mod, 'private value handed to post-processing `%s`' % fname)
             if isinstance(f, ast.Attribute):
